@@ -5,6 +5,7 @@ package value
 import (
 	"bytes"
 	"io"
+	"strconv"
 
 	"github.com/lugu/qiloop/internal/zzverif/sym"
 )
@@ -532,4 +533,41 @@ func C02Fragmented() {
 	sym.Assert(back.Write(&buf2) == nil, "fragmented/reencode-ok")
 	sym.Assert(sym.EqBytes(buf2.Bytes(), enc), "fragmented/reencode-identical")
 	sym.Reach("fragmented-done")
+}
+
+// C02ManySignatures: one process decodes dynamic values of 70 different structure signatures (alternating
+// member layouts), then values of the FIRST signatures again: each still decodes to an equal value, consuming
+// exactly its bytes (whatever the decoder keeps per signature must still belong to that signature after any
+// number of other signatures).
+func C02ManySignatures() {
+	layouts := []string{"(C)", "(l)", "(Ci)", "(sW)"}
+	mk := func(k int) (string, []byte) {
+		sig := layouts[k%len(layouts)] + "<S" + strconv.Itoa(k) + ",a"
+		var data []byte
+		switch k % len(layouts) {
+		case 0:
+			data = []byte{sym.U8("c")}
+		case 1:
+			data = zzLE64(sym.U64("l"))
+		case 2:
+			sig += ",b"
+			data = zzCat([]byte{sym.U8("c")}, zzLE32(sym.U32("i")))
+		default:
+			sig += ",b"
+			data = zzCat(zzStr(sym.Str("s", 1)), []byte{sym.U8("w0"), sym.U8("w1")})
+		}
+		return sig + ">", data
+	}
+	const n = 70
+	for k := 0; k < n; k++ {
+		sig, data := mk(k)
+		var buf bytes.Buffer
+		Opaque(sig, data).Write(&buf)
+		_, err := NewValue(bytes.NewReader(buf.Bytes()))
+		sym.Assert(err == nil, "many-signatures/decode-ok")
+	}
+	again := sym.Choose("signature-decoded-again", 6)
+	sig, data := mk(again)
+	zzRoundTrip(Opaque(sig, data), "many-signatures/decoded-again")
+	sym.Reach("many-signatures-done")
 }
